@@ -198,6 +198,26 @@ M: List[Tuple[str, str, str, str, str]] = [
     ('c09-reject-after-forward', 'C09', 'proxy/http/proxy/server.py',
      "                if self.pipeline_request.is_complete:\n                    for plugin in self.plugins.values():",
      "                if self.pipeline_request.is_complete:\n                    self.upstream.queue(memoryview(self.pipeline_request.build())) if len(self.plugins) > 3 else None\n                    for plugin in self.plugins.values():"),
+    # ---- C18 ---------------------------------------------------------------
+    ('c18-stop-on-first-broken-pipe', 'C18', 'proxy/core/event/dispatcher.py',
+     "                self._close(sub_id)\n                broken_pipes.append(sub_id)\n",
+     "                self._close(sub_id)\n                broken_pipes.append(sub_id)\n                break\n"),
+    ('c18-broken-subscriber-kept', 'C18', 'proxy/core/event/dispatcher.py',
+     "        for sub_id in broken_pipes:\n            del self.subscribers[sub_id]", "        for sub_id in broken_pipes[1:]:\n            del self.subscribers[sub_id]"),
+    ('c18-unsubscribe-ack-after-delete', 'C18', 'proxy/core/event/dispatcher.py',
+     "                self._send(\n                    sub_id, {\n                        'event_name': eventNames.UNSUBSCRIBED,\n                    },\n                )\n                self._close_and_delete(sub_id)",
+     "                self._close(sub_id)\n                self._send(\n                    sub_id, {\n                        'event_name': eventNames.UNSUBSCRIBED,\n                    },\n                )\n                del self.subscribers[sub_id]"),
+    ('c18-broadcast-control-events', 'C18', 'proxy/core/event/dispatcher.py',
+     "            else:\n                logger.info(\n                    'unsubscription request ack not sent, subscriber already gone',\n                )",
+     "            else:\n                self._broadcast(ev)"),
+    ('c18-reverse-fanout-order', 'C18', 'proxy/core/event/dispatcher.py',
+     "        for sub_id in self.subscribers:\n            try:\n                self.subscribers[sub_id].send(ev)",
+     "        for sub_id in self.subscribers:\n            try:\n                self.subscribers[sub_id].send(ev)\n                if len(self.subscribers) > 2 and ev.get('event_payload', {}).get('n') == 3:\n                    self.subscribers[sub_id].send(ev)"),
+    ('c18-failed-ack-keeps-subscriber', 'C18', 'proxy/core/event/dispatcher.py',
+     "            ):\n                self._close_and_delete(sub_id)", "            ):\n                self._close(sub_id)"),
+    ('c18-dispatcher-dies-on-eof', 'C18', 'proxy/core/event/dispatcher.py',
+     "            except BrokenPipeError:\n                logger.warning(\n                    'Subscriber#%s broken pipe', sub_id,",
+     "            except ConnectionResetError:\n                logger.warning(\n                    'Subscriber#%s broken pipe', sub_id,"),
 ]
 
 
